@@ -1,6 +1,7 @@
 import DepsDev.Proofs.C10Tie
 import DepsDev.Proofs.C10Gem
 import DepsDev.Proofs.C10PepTie
+import DepsDev.Proofs.C10Mvn4
 import DepsDev.Props.SemverTies
 
 /-!
@@ -35,8 +36,10 @@ What is here:
   without an '∞' release number (`NoInfinity`); and a fourth refutation found while proving,
   `pypi_leading_infinity_not_roundtrip` (`01!∞` is accepted, its canonical form `1!∞.0.0` is
   not; finding F-C10-pypi-inf, confirmed on the Go code);
-* Maven: the statement only (`CanonRoundTripFull`) and its refutation, covered by the
-  differential correspondence and the round-trip oracle, not by a theorem.
+* Maven: `maven` — the property for every ASCII version string `Parse` accepts that does not
+  begin with a separator (`NoLeadingSeparator`); here the canonical string parses back to
+  exactly the same version (split into elements, the trimming index machine, the numbers).
+  ASCII is the documented domain of the Maven model (`strings.ToLower`).
 -/
 namespace DepsDev.Props.C10
 
@@ -69,11 +72,15 @@ def NoLeadingSeparator (b : Bytes) : Bool := !(b.head? == some 46 || b.head? == 
 /-- Finding F-C10-pypi-inf: PyPI's `Parse` accepts '∞' as a release number; the theorems exclude it. -/
 def NoInfinity (v : Version) : Bool := !v.num.any (· == infinity)
 
-/-- The property as stated, with the recorded exclusions as hypotheses. -/
+/-- ASCII input (the domain in which the model's Maven lower-casing mirrors `strings.ToLower`). -/
+def AsciiInput (b : Bytes) : Bool := b.all (· < 0x80)
+
+/-- The property as stated, with the recorded exclusions as hypotheses (and the Maven model's
+ASCII domain). -/
 def C10Stated : Prop :=
   ∀ (s : System) (b : Bytes) (v : Version) (sb : Bool), parse s b = .ok v →
     NotWildcard v = true → (s = .rubygems → GemRelease v = true) → (s = .maven → NoLeadingSeparator b = true) →
-    (s = .pypi → NoInfinity v = true) → RoundTrips s v sb
+    (s = .pypi → NoInfinity v = true) → (s = .maven → AsciiInput b = true) → RoundTrips s v sb
 
 /-- The property read literally (every version that parses, every system). -/
 def C10Full : Prop := ∀ s, CanonRoundTripFull s ∧ CanonInjectiveFull s
@@ -297,6 +304,27 @@ string is `1.2.0`. -/
 example : ∃ v, parse .rubygems [48, 49, 46, 50] = .ok v ∧ GemRelease v = true := by
   refine ⟨{ sys := .rubygems, userNumCount := 2, num := [1, 2, 0], ext := .gem [] }, ?_, ?_⟩ <;> decide +kernel
 
+/-! ## Maven -/
+
+/-- **C10 for Maven** (all four clauses): for every ASCII string `Parse` accepts that does not begin
+with a separator, the canonical string parses (to exactly the same version), compares equal and
+canonicalises identically; two such versions with the same canonical string compare equal. -/
+theorem maven :
+    (∀ (b : Bytes) (v : Version) (sb : Bool), AsciiInput b = true → NoLeadingSeparator b = true →
+      parse .maven b = .ok v → RoundTrips .maven v sb) ∧
+    (∀ (b1 b2 : Bytes) (v w : Version), AsciiInput b1 = true → AsciiInput b2 = true →
+      NoLeadingSeparator b1 = true → NoLeadingSeparator b2 = true →
+      parse .maven b1 = .ok v → parse .maven b2 = .ok w → canon v true = canon w true → vcompare v w = .ok 0) :=
+  ⟨fun b v sb hb hl hp => maven_roundtrip b v sb hb hl hp,
+   fun b1 b2 v w h1 h2 l1 l2 p1 p2 h => maven_injective b1 b2 v w h1 h2 l1 l2 p1 p2 h⟩
+
+/-- Non-vacuity: Maven `1.0.0-RC1-final.0` is ASCII, does not begin with a separator and is
+accepted (elements `1`, `-rc`, `-1`: zeros and `final` trimmed). -/
+example : AsciiInput [49, 46, 48, 46, 48, 45, 82, 67, 49, 45, 102, 105, 110, 97, 108, 46, 48] = true ∧
+    NoLeadingSeparator [49, 46, 48, 46, 48, 45, 82, 67, 49, 45, 102, 105, 110, 97, 108, 46, 48] = true ∧
+    (parse .maven [49, 46, 48, 46, 48, 45, 82, 67, 49, 45, 102, 105, 110, 97, 108, 46, 48]).isOk = true := by
+  refine ⟨by decide, by decide, by decide +kernel⟩
+
 /-! ## PyPI (PEP 440) -/
 
 /-- **C10 for PyPI** (all four clauses): every version `Parse` accepts that is not a wildcard
@@ -351,6 +379,23 @@ example : ∃ v, parse .pypi [118, 49, 46, 48, 82, 67, 50, 46, 112, 111, 115, 11
   refine ⟨{ sys := .pypi, userNumCount := 2, isPrerelease := true, num := [1, 0, 0], pre := [[114, 99], [50]],
             ext := .pep (some { pre := [114, 99], preNum := 2, postPresent := true, postNum := 3, loc := [65, 98, 46, 49] }) },
     ?_, ?_, ?_⟩ <;> decide +kernel
+
+/-! ## All nine systems -/
+
+/-- **C10, clauses 1–3, as stated, for all nine packaging systems** (the recorded finding classes
+excluded; Maven on its ASCII domain). -/
+theorem c10_stated : C10Stated := by
+  intro s b v sb hp hw hgem hmvn hpy hascii
+  cases s
+  case default => exact canon_roundtrip .default (Or.inl rfl) b v sb hp hw
+  case cargo => exact canon_roundtrip .cargo (Or.inr (Or.inl rfl)) b v sb hp hw
+  case go => exact canon_roundtrip .go (Or.inr (Or.inr (Or.inl rfl))) b v sb hp hw
+  case npm => exact canon_roundtrip .npm (Or.inr (Or.inr (Or.inr (Or.inl rfl)))) b v sb hp hw
+  case nuget => exact canon_roundtrip .nuget (Or.inr (Or.inr (Or.inr (Or.inr (Or.inl rfl))))) b v sb hp hw
+  case composer => exact canon_roundtrip .composer (Or.inr (Or.inr (Or.inr (Or.inr (Or.inr rfl))))) b v sb hp hw
+  case maven => exact maven.1 b v sb (hascii rfl) (hmvn rfl) hp
+  case pypi => exact pypi.1 b v sb hp hw (hpy rfl)
+  case rubygems => exact gem_release.1 b v sb hp (hgem rfl)
 
 /-- The Cargo version `1.2-Beta-1+x.y` as `Parse` leaves it (two numbers). -/
 def cargoV : Version :=
